@@ -209,6 +209,19 @@ claim("C02", "model_checking",
       "TLA+ attacker spec + TLC model checking; byte-level tamper replay of recorded real sessions against fresh real endpoints",
       "DESIGN.md 4/C02", "stream")
 
+claim("C16", "model_checking",
+      "specs/Http/Forwarder.tla has 18 actions mirroring httpproxy/server.go: the handshake loop with the 407 round, Proceed/Abort, the request "
+      "forwarder (filter, announce on the capacity-16 queue, write, next read with host-change / CONNECT / close handling) and the response "
+      "forwarder (peek, take, interim vs final, close conditions, redirects), client and origin as the environment, messages as abstract records "
+      "with the filter defined as the property words it; TLC checks QueueBound/NoDrop/InOrder/InterimNotFinal/NothingBeforeAuth/Filtered/"
+      "WrongHostNeverSent/CloseEnds/Terminates. Path covers and simulated walks are replayed against the real ServerHandle(...).Proceed() inside "
+      "testing/synctest with a scripted client and origin on netio pipes; messages are rendered with randomised casing, field order and chunking, "
+      "and what each peer received is parsed back and compared field by field.",
+      "Schedules are exact at quiescent points only; every message arrives complete; HTTP/1.0, malformed field syntax and obs-fold are not "
+      "generated (framing is net/http's); response-direction field leaks are notes (the property words the filter for requests).",
+      "TLA+ spec + TLC model checking; replay of TLC behaviours against the real HTTP proxy forwarder under a virtual clock",
+      "DESIGN.md 4/C16", "forwarder")
+
 NA = {}
 
 def main():
